@@ -65,3 +65,70 @@ package nts
 //@   ensures next: result1 == nil && result0 == pos+4+pad4(len(c.Cookie))
 //@   ensures kind: be16(buf, pos) == 772 && be16(buf, pos+2) == mathint(4+pad4(len(c.Cookie)))
 //@   ensures before: forall(q, 0, pos, buf[q] == old(buf[q]))
+
+//@ func (*UniqueIdentifier).unpack
+//@   requires u != nil && 0 <= pos && pos <= len(buf)
+//@   modifies *u
+//@   allocates
+//@   ensures kind: (result == nil) == (old(u.extHdr.Type) == 260)
+//@   ensures value: result == nil ==> mathint(len(u.ID)) == floormod(mathint(u.extHdr.Length)-4, 65536) && fresh(u.ID)
+
+//@ func (*Cookie).unpack
+//@   requires c != nil && 0 <= pos && pos <= len(buf)
+//@   modifies *c
+//@   allocates
+//@   ensures kind: (result == nil) == (old(c.extHdr.Type) == 516)
+//@   ensures value: result == nil ==> mathint(len(c.Cookie)) == floormod(mathint(c.extHdr.Length)-4, 65536) && fresh(c.Cookie)
+
+//@ func (*CookiePlaceholder).unpack
+//@   requires c != nil
+//@   ensures kind: (result == nil) == (c.extHdr.Type == 772)
+
+//@ func (*Authenticator).unpack
+//@   requires a != nil && 0 <= pos && pos <= len(buf)-4
+//@   modifies *a
+//@   allocates
+//@   ensures kind: (result == nil) == (old(a.extHdr.Type) == 1028)
+//@   ensures lens: result == nil ==> mathint(len(a.Nonce)) == be16(buf, pos) && mathint(len(a.CipherText)) == be16(buf, pos+2)
+
+// The authenticator covers exactly the bytes that precede it (buf[:pos]) under a.Key; it is laid out as
+// header(4) | nonce length(2) | ciphertext length(2) | nonce(16) | ciphertext(len(PlainText)+16, padded to 4).
+//@ func (Authenticator).pack
+//@   aead seal
+//@   requires 0 <= pos && len(a.PlainText) <= 60000 && pos <= len(buf)-40-pad4(len(a.PlainText))
+//@   requires regionof(a.PlainText) != regionof(buf) && regionof(a.Key) != regionof(buf)
+//@   modifies buf[:]
+//@   allocates
+//@   ensures keylen: (result1 == nil) == (len(a.Key) == 32 || len(a.Key) == 64)
+//@   ensures next: result1 == nil ==> result0 == pos+40+pad4(len(a.PlainText))
+//@   ensures kind: result1 == nil ==> be16(buf, pos) == 1028 && be16(buf, pos+2) == mathint(40+pad4(len(a.PlainText))) && be16(buf, pos+4) == 16 && be16(buf, pos+6) == mathint(len(a.PlainText)+16)
+//@   ensures covered: result1 == nil ==> sealed() && sameslice(lastSealAD(), buf[:pos]) && sameslice(lastSealPT(), a.PlainText) && sameslice(lastSealKey(), a.Key)
+//@   ensures before: forall(q, 0, pos, buf[q] == old(buf[q]))
+
+// Size of an encoded NTS packet (all cookies of one length, all placeholders of one length), in unbounded integers.
+//@ pred mpad4(n) = ((mathint(n)+3)/4*4)
+//@ pred cunit(pkt) = (4+mpad4(len(pkt.Cookies[0].Cookie)))
+//@ pred punit(pkt) = (4+mpad4(len(pkt.CookiePlaceholders[0].Cookie)))
+//@ pred ntsLen(pkt) = (52+mpad4(len(pkt.UniqueID.ID))+mathint(len(pkt.Cookies))*cunit(pkt)+mathint(len(pkt.CookiePlaceholders))*punit(pkt)+40+mpad4(len(pkt.Auth.PlainText)))
+//@ pred ntsShape(pkt) = 32 <= len(pkt.UniqueID.ID) && len(pkt.UniqueID.ID) <= 256 && len(pkt.Cookies) <= 64 && len(pkt.CookiePlaceholders) <= 64 && len(pkt.Auth.PlainText) <= 16384 &&
+//@ |   (len(pkt.Auth.Key) == 32 || len(pkt.Auth.Key) == 64) &&
+//@ |   forall(i, 0, len(pkt.Cookies), len(pkt.Cookies[i].Cookie) == len(pkt.Cookies[0].Cookie) && len(pkt.Cookies[i].Cookie) <= 1024) &&
+//@ |   forall(i, 0, len(pkt.CookiePlaceholders), len(pkt.CookiePlaceholders[i].Cookie) == len(pkt.CookiePlaceholders[0].Cookie) && len(pkt.CookiePlaceholders[i].Cookie) <= 1024)
+
+// The packet must fit into MaxPacketLen: otherwise fields are silently truncated by copy or the packers panic.
+//@ func EncodePacket
+//@   aead seal
+//@   requires b != nil && pkt != nil && len(*b) == 48
+//@   requires ntsShape(pkt) && ntsLen(pkt) <= 1024
+//@   requires regionof(pkt.UniqueID.ID) != regionof(*b) && regionof(pkt.Auth.Key) != regionof(*b) && regionof(pkt.Auth.PlainText) != regionof(*b)
+//@   requires forall(i, 0, len(pkt.Cookies), regionof(pkt.Cookies[i].Cookie) != regionof(*b)) && forall(i, 0, len(pkt.CookiePlaceholders), regionof(pkt.CookiePlaceholders[i].Cookie) != regionof(*b))
+//@   modifies *b, (*b)[:]
+//@   allocates
+//@   loop 0 invariant len(*b) == 1024 && (regionof(*b) == before(regionof(*b))) && offsetof(*b) == before(offsetof(*b)) && err == nil
+//@   loop 0 invariant mathint(pos) == 52+mpad4(len(pkt.UniqueID.ID))+mathint(iter())*cunit(pkt)
+//@   loop 0 invariant mathint(pos)+(mathint(len(pkt.Cookies))-mathint(iter()))*cunit(pkt)+mathint(len(pkt.CookiePlaceholders))*punit(pkt)+40+mpad4(len(pkt.Auth.PlainText)) <= 1024
+//@   loop 1 invariant len(*b) == 1024 && (regionof(*b) == before(regionof(*b))) && offsetof(*b) == before(offsetof(*b)) && err == nil
+//@   loop 1 invariant mathint(pos) == 52+mpad4(len(pkt.UniqueID.ID))+mathint(len(pkt.Cookies))*cunit(pkt)+mathint(iter())*punit(pkt)
+//@   loop 1 invariant mathint(pos)+(mathint(len(pkt.CookiePlaceholders))-mathint(iter()))*punit(pkt)+40+mpad4(len(pkt.Auth.PlainText)) <= 1024
+//@   ensures length: mathint(len(*b)) == ntsLen(pkt)
+//@   ensures covered: sealed() && sameslice(lastSealAD(), (*b)[:len(*b)-40-pad4(len(pkt.Auth.PlainText))]) && sameslice(lastSealKey(), pkt.Auth.Key) && sameslice(lastSealPT(), pkt.Auth.PlainText)
